@@ -22,7 +22,7 @@ class BigGame:
         self.rewards = [float(r) for r in game["rewards"]]
         self.n = len(self.players)
         # structure-only view for the exact graph algorithms
-        self.graph = oracle.Game(self.players, [[(0, t) for _, t in tr] for tr in self.tl], self.finals, [0] * self.n)
+        self.graph = oracle.Game(self.players, self.tl, self.finals, [0] * self.n)     # graph algorithms only (zero-probability branches are not edges)
 
 
 def _chain_matrix(bg, choice, rows_idx):
